@@ -61,10 +61,7 @@ def gprocess : GInner → GIn → GInner × List GOut
   | s@(.llgrStaling _), .dropped _ _ => (s, [])
   | _, .dropped (some gr) llgr => (.peerRestarting gr llgr, [.startTimer])
   | _, .dropped none (some lp) => (.llgrStaling (dedup lp), [.startLlgrTimers lp])
-  | .peerRestarting stale (some lp), .timer =>
-      let uncovered := stale.filter (fun f => !lp.contains f)
-      (.llgrStaling (dedup lp),
-       (if uncovered.isEmpty then [] else [GOut.deleteStale uncovered]) ++ [.startLlgrTimers lp])
+  | .peerRestarting _ (some lp), .timer => (.llgrStaling (dedup lp), [.startLlgrTimers lp])
   | .peerRestarting stale none, .timer => (.idle, [.deleteStale stale])
   | .peerRestarting stale _, .established grFams =>
       let grSet := dedup grFams
@@ -222,7 +219,11 @@ def grTimerExpired (g : G) : G :=
   let g := { g with gs := r.1 }
   let g := { g with rib := g.rib.each (collectDelete r.2) Rib.dropFam }
   match llgrStart r.2 with
-  | some fs => spawnLlgrTimers g fs
+  | some fs =>
+      -- `drop_stale_families(addr, all_families \ fs)`: stale routes of the peer in a family the
+      -- LLGR period does not cover have no timer left
+      let g := { g with rib := g.rib.filter (fun x => !(!fs.contains x.fam && x.stale)) }
+      spawnLlgrTimers g fs
   | none => g
 
 /-- `llgr_timer_expired` -/
